@@ -35,6 +35,7 @@ func TestMain(m *testing.M) {
 type Case struct {
 	Src         string `json:"src"`
 	Independent bool   `json:"independent"`
+	MayReject   bool   `json:"may_reject"`
 }
 
 func setup() bool {
@@ -55,12 +56,13 @@ func setup() bool {
 }
 
 type info struct {
-	schedules  int
-	complete   bool
-	modelSet   int
-	goSet      int
-	unusable   string
+	schedules    int
+	complete     bool
+	modelSet     int
+	goSet        int
+	unusable     string
 	inconclusive string
+	rejected     bool
 }
 
 func runCase(c Case) (string, info) {
@@ -74,6 +76,10 @@ func runCase(c Case) (string, info) {
 		return fmt.Sprintf("goose panicked: %v", tr.Panic), inf
 	}
 	if len(tr.Errs) > 0 {
+		if c.MayReject {
+			inf.rejected = true
+			return "", inf
+		}
 		return fmt.Sprintf("goose rejected a concurrent program of the supported subset: %v", tr.Errs[0]), inf
 	}
 	vf, err := vread.ParseFile(tr.Text)
@@ -210,6 +216,11 @@ func check(t ev.TB, c Case, feats []string) {
 	if inf.inconclusive != "" {
 		ev.Inconclusive(inf.inconclusive)
 	}
+	if inf.rejected {
+		ev.Label("frontier:rejected")
+		ev.NonTrivial("rejected|" + c.Src)
+		return
+	}
 	fam := "dependent"
 	if c.Independent {
 		fam = "independent"
@@ -240,7 +251,7 @@ func TestConcurrent(t *testing.T) {
 	}
 	rapid.Check(t, func(t *rapid.T) {
 		p := gen.GenerateConcurrent(t)
-		check(t, Case{Src: p.Src, Independent: p.Independent}, p.Features)
+		check(t, Case{Src: p.Src, Independent: p.Independent, MayReject: p.MayReject}, p.Features)
 	})
 }
 
